@@ -101,6 +101,13 @@ WriteFits(La, w) == IF w.f > 0 THEN Fits(La, w.r, w.f, ToSet(w.v))
 
 \* ------------------------------------------------------------------ layout well-formedness (data consistency)
 GroupsConsistent(La) == \A g \in Groups(La) : Reg(La, g).nmiss = 0 /\ (Reg(La, g).declw = 0 \/ Reg(La, g).declw = Reg(La, g).subsw)
+\* no two registers of a binary area describe the same byte (La.ovl: leaves whose byte range overlaps another one)
+NoOverlap(La) == La.ovl = <<>>
+\* every computed_fields / seal_start entry of the database names a register and a bit-field that exist, with a known rule
+Resolvable(La) == La.nbad = 0
+\* the enum names of a bit-field are distinct (La.dupenum: registers with a bit-field that has two values under one name) - a
+\* configuration writes the NAME of a value, so only the first value of a name survives GetConfig -> LoadConfig
+EnumNamesUnique(La) == La.dupenum = <<>>
 
 \* ------------------------------------------------------------------ actions
 Keep == UNCHANGED lay
